@@ -217,6 +217,76 @@ __probe("newfn.state", function () { return [nfF(1, 2), nfI.get(), nfI.construct
 var gsHolder = { ref: gs };
 __probe("bridged.read", function () { return [gs.N, gs.S, gsHolder.ref === gs].join(); });`},
 
+	// bindings: every kind of declarative binding otto can create, captured by closures, so
+	// that the binding ATTRIBUTES (deletable, mutable, initialised) are part of the heap:
+	// eval-declared var/function in a function scope, a nested function, a catch scope and a
+	// with block inside a function (deletable); ordinary var / function / parameter /
+	// uninitialised var (not deletable); named-function-expression self names (immutable);
+	// catch parameters; bindings deleted (and re-declared) before the copy; eval inside a
+	// program-level catch. Each scope exposes static delete/typeof/assign closures and a
+	// direct-eval closure; the attributes are exercised by the bindings.* mutations
+	// (differential against the replayed runtime).
+	{Name: "bindings", Src: `
+function bnMk(p, q) {
+  var nv = 1, un;
+  function nf() {}
+  eval("var ev1 = 1; function ef1() { return 'ef1'; } var evGone = 2; var evBack = 3;");
+  delete evGone; delete evBack; eval("var evBack = 4");
+  return {
+    ev: function (s) { return eval(s); },
+    del: function () { return [delete ev1, delete ef1, delete nv, delete nf, delete p, delete q, delete un, delete evBack, delete evGone].join(); },
+    get: function () { return [typeof ev1, typeof ef1, typeof nv, typeof nf, typeof p, typeof q, typeof un, typeof evGone, typeof evBack].join(); },
+    set: function () { ev1 = "s1"; ef1 = "s2"; nv = "s3"; nf = "s4"; p = "s5"; un = "s6"; evBack = "s7"; return [ev1, ef1, nv, nf, p, un, evBack].join(); }
+  };
+}
+var bnFn = bnMk(10);
+var bnNest = (function outer(a) {
+  var ov = 1;
+  return (function inner(b) {
+    eval("var iv = 1; function ifn() {}");
+    return {
+      ev: function (s) { return eval(s); },
+      del: function () { return [delete iv, delete ifn, delete ov, delete a, delete b, delete inner, delete outer].join(); },
+      get: function () { return [typeof iv, typeof ifn, typeof ov, typeof a, typeof b, typeof inner, typeof outer].join(); },
+      set: function () { inner = 1; outer = 2; iv = 3; ov = 4; a = 5; return [typeof inner, typeof outer, iv, ov, a].join(); }
+    };
+  })(2);
+})(1);
+var bnCatch = (function () {
+  try { throw "thrown"; } catch (ce) {
+    eval("var cv = 1; function cf() {}");
+    return {
+      ev: function (s) { return eval(s); },
+      del: function () { return [delete ce, delete cv, delete cf].join(); },
+      get: function () { return [typeof ce, typeof cv, typeof cf].join(); },
+      set: function () { ce = "c1"; cv = "c2"; return [ce, cv].join(); }
+    };
+  }
+})();
+var bnWithO = { wx: 1 };
+var bnWith = (function () {
+  with (bnWithO) {
+    eval("var wv = 1; var wx = 2; function wf() {}");
+    return {
+      ev: function (s) { return eval(s); },
+      del: function () { return [delete wv, delete wf, delete wx, delete wx].join(); },
+      get: function () { return [typeof wv, typeof wx, typeof wf, bnWithO.wx].join(); },
+      set: function () { wv = "w1"; wx = "w2"; return [wv, wx, bnWithO.wx].join(); }
+    };
+  }
+})();
+var bnG;
+try { throw "g"; } catch (gce) {
+  eval("var gcv = 1; function gcf() {}");
+  bnG = {
+    ev: function (s) { return eval(s); },
+    del: function () { return [delete gce, delete gcv, delete gcf].join(); },
+    get: function () { return [typeof gce, typeof gcv, typeof gcf].join(); }
+  };
+}
+__probe("bindings.types", function () { return [bnFn.get(), bnNest.get(), bnCatch.get(), bnWith.get(), bnG.get()].join("|"); });
+__probe("bindings.values", function () { return [bnFn.ev("[ev1, ef1(), nv, p, q, un, evBack].join()"), bnNest.ev("[iv, ov, a, b].join()"), bnCatch.ev("[ce, cv].join()"), bnWith.ev("[wv, wx].join()"), bnG.ev("[gce, gcv].join()")].join("|"); });`},
+
 	// degenerate: data properties holding every kind of value, and the empty / minimal
 	// instance of every container kind (object, array, function, holes-only array, object
 	// whose only property is non-enumerable, environment record with zero bindings, bound
@@ -314,6 +384,10 @@ var mutations = []mutation{
 	{Name: "globals.assign", Needs: "globals", Src: `gv = 10; gi = 20; ge = 30; gv + gi + ge`},
 	{Name: "caller.redefine", Needs: "caller", Src: `clG = function () { return "other"; }; clG()`},
 	{Name: "newfn.edit", Needs: "newfn", Src: `nfO = "?"; nfCtor.prototype.get = function () { return -this.v; }; nfCtor.stat.s = 2; nfI.v = 6; nfF(1, 2) + nfI.get()`},
+	{Name: "bindings.delete", Needs: "bindings", Src: `[bnFn.del(), bnFn.get(), bnNest.del(), bnNest.get(), bnCatch.del(), bnCatch.get(), bnWith.del(), bnWith.get(), bnG.del(), bnG.get()].join("|")`},
+	{Name: "bindings.evdelete", Needs: "bindings", Src: `[bnFn.ev("[delete ev1, typeof ev1, delete ef1, typeof ef1, delete nv, delete p, delete arguments].join()"), bnNest.ev("[delete iv, typeof iv, delete ifn, delete inner, typeof inner].join()"), bnCatch.ev("[delete cv, typeof cv, delete cf, delete ce, typeof ce].join()"), bnWith.ev("[delete wf, typeof wf, delete wv, typeof wv].join()"), bnG.ev("[delete gcv, typeof gcv, delete gcf, delete gce].join()")].join("|")`},
+	{Name: "bindings.assign", Needs: "bindings", Src: `[bnFn.set(), bnFn.get(), bnNest.set(), bnNest.get(), bnCatch.set(), bnCatch.get(), bnWith.set(), bnWith.get()].join("|")`},
+	{Name: "bindings.redeclare", Needs: "bindings", Src: `[bnFn.ev("var late = 5; function lateF() {} [delete late, typeof late, delete lateF, typeof lateF].join()"), bnFn.ev("var ev1 = 'again'; var evGone = 'back'; [ev1, evGone, delete ev1, delete evGone].join()"), bnFn.get(), bnFn.del(), bnFn.ev("eval('var ev1 = 7'); [typeof ev1, delete ev1, typeof ev1].join()"), bnCatch.ev("var cv = 'r'; [cv, delete cv, typeof cv].join()"), bnCatch.get(), bnG.ev("var gcv = 'r'; eval('var gnew = 1'); [delete gcv, delete gnew, typeof gnew].join()"), bnG.get()].join("|")`},
 	{Name: "degenerate.rewrite", Needs: "degenerate", Src: `vk.u = 0; vk.n = undefined; vk.nan = null; vk.nz = 0; vk.es = "x"; vkArr[3] = 0; vkArr[0] = -0; delete vk.f; vk.arr.push(undefined); vk.so.p = vk.no; 1 / vk.nz`},
 	{Name: "degenerate.fill", Needs: "degenerate", Src: `emO.a = 1; emA.push(1); emF.p = 1; emNE.hidden = 2; emNE.vis = 1; emArgs0[0] = "z"; emArgsF.args[0] = "q"; emNullP.k = 1; emN[1] = 1; emZ = 0; [emB0(6), emArgsF.get(), emWith(), emArgs0.length].join()`},
 	{Name: "degenerate.lock", Needs: "degenerate", Src: `Object.freeze(emO); Object.preventExtensions(emA); Object.seal(emNullP); emO.x = 1; emNullP.y = 1; [Object.isFrozen(emO), Object.isExtensible(emA), "x" in emO].join()`},
